@@ -40,7 +40,7 @@ PROPS = {
 }
 
 CLASSES = {"quick": 4, "thorough": 8}
-WALL_CAP = {"quick": 900, "thorough": 6 * 3600}
+WALL_CAP = {"quick": 3600, "thorough": 8 * 3600}
 MAX_SHRINK_GROUPS = 12
 SHRINK_SECONDS = 40
 VIOL_PER_CHUNK = 40
